@@ -117,14 +117,15 @@ class FrpProp(Prop):
         return None
 
     def known_class(self, batch, name, lines, out, why):
-        if is_K1(lines):
-            return "K1"
-        if ("forced" in why or "sample" in why or "=[" in why) and "still alive" not in why and is_K3_lazy(lines):
-            return "K3"
-        if "still alive after every handle was dropped" in why and is_K5(lines):
+        leak = "still alive after every handle was dropped" in why
+        if leak and is_K5(lines):
             return "K5"
-        if "still alive after every handle was dropped" in why and is_K3_leak(lines):
+        if leak and is_K3_leak(lines):
             return "K3"
+        if not leak and ("forced" in why or "sample" in why or "=[" in why) and is_K3_lazy(lines):
+            return "K3"
+        if not leak and is_K1(lines):
+            return "K1"
         return None
 
     spec_is_oracle = True
@@ -299,7 +300,7 @@ class C10(FrpProp):
         return unlisten_oracle(lines, out)
     level_text = "Theorems over the specification: after unlisten (at any depth, also inside an open transaction) no call to that listener ever again until re-registered; unlisten twice = once; a listener registered inside a transaction receives that transaction's event including sends made before the registration; Cell::listen delivers exactly the current value, or the update of that very transaction. Strong-listener keep-alive is covered by the correspondence under handle drops and collections (memory management is not in the specification)."
     tag = "c10"
-    profile = Profile(w=W(), p_listen_late=0.8, p_unlisten=0.5, listen_cells=0.4, p_block=0.6, p_mem=0.2, weak=0.0,
+    profile = Profile(w=W(), p_listen_late=0.8, p_unlisten=0.5, listen_cells=0.4, p_block=0.6, p_mem=0.2, weak=0.25,
                       n_txn=(5, 14), p_listen_u=0.15)
 
 
